@@ -50,3 +50,16 @@ theorem counit_values (h t : Int) :
   simp [counit, one, X, mul, add, smul, vecOf, prod]
 
 end Yuiv.KhRef
+
+namespace Yuiv.KhRef
+
+/-- the sign rule of the cube makes every square anticommute: for two distinct positions `i ≠ j` that are 0 in
+`s`, going `i` then `j` carries the opposite sign of going `j` then `i` (this is what turns the commuting
+faces of the TQFT cube into d∘d = 0). -/
+theorem edgeSign_anticomm (s i j : Nat) (hij : i ≠ j) (hi : s.testBit i = false) (hj : s.testBit j = false) :
+    edgeSign s i * edgeSign (s ||| (1 <<< i)) j = - (edgeSign s j * edgeSign (s ||| (1 <<< j)) i) := by
+  rcases Nat.lt_or_gt_of_ne hij with h | h
+  · rw [edgeSign_or_gt s i j hi h, edgeSign_or_le s j i (Nat.le_of_lt h)]; ring
+  · rw [edgeSign_or_gt s j i hj h, edgeSign_or_le s i j (Nat.le_of_lt h)]; ring
+
+end Yuiv.KhRef
